@@ -163,12 +163,12 @@ func genSpec(r *vh.Rng, idx int, thorough bool) scenarioSpec {
 			}
 		}
 	}
-	if sp.BigAll == 0 && sp.ApplyConfigs == 0 && sp.IdleMs == 0 && !sp.Stall && len(sp.Reconfig) == 0 && sp.QueueCap == 0 && r.Chance(5) {
+	if sp.BigAll == 0 && sp.ApplyConfigs == 0 && sp.IdleMs == 0 && !sp.Stall && len(sp.Reconfig) == 0 && sp.QueueCap == 0 && r.Chance(4) {
 		// the stall fault: the collector stops reading connection 0 after j frames until a write deadline has
 		// expired, then reads on; the rest of the script (closes, refusals) follows on the later connections
 		sp.BigAll = []int{600 << 10, 1200 << 10, 1500 << 10, 3 << 20}[r.Intn(4)]
 		sp.Big = 0
-		sp.TimeoutMs = 500 + r.Intn(400)
+		sp.TimeoutMs = 300 + r.Intn(300)
 		sp.Senders = []int{1, 1, 4}[r.Intn(3)]
 		sp.PreMax = 14
 		sp.Post = 4 + r.Intn(4)
@@ -182,7 +182,11 @@ func genSpec(r *vh.Rng, idx int, thorough bool) scenarioSpec {
 				rest[i].Frames = r.Intn(3)
 			}
 		}
-		sp.Script = append([]directive{{Stall: true, Frames: r.Intn(3)}}, rest...)
+		pre := r.Intn(3)
+		if sp.Mode == "queue" {
+			pre = 0 // process() flushes only now and then: "after j frames" may never come
+		}
+		sp.Script = append([]directive{{Stall: true, Frames: pre}}, rest...)
 	}
 	sp.Name = fmt.Sprintf("%s/%d senders/%d faults", sp.Mode, sp.Senders, len(sp.Script))
 	if len(sp.Script) > 0 && sp.Script[0].Stall {
@@ -211,17 +215,19 @@ func fixedSpecs(seed uint64, thorough bool, waitMs int) []scenarioSpec {
 	out := fixedSpecs0(seed)
 	// the collector stalls (no close, no reset): a write deadline expires mid-frame; frames smaller than
 	// the 2 MiB buffered writer fail in Flush (the connection stays), larger ones inside send() (Close)
-	out = append(out, stallSpec("direct", 1, 1500<<10, 1), stallSpec("direct", 4, 1200<<10, 0), stallSpec("queue", 1, 1500<<10, 1))
+	out = append(out, stallSpec("direct", 1, 1500<<10, 1), stallSpec("direct", 4, 1200<<10, 0), stallSpec("queue", 1, 1500<<10, 0))
 	if thorough {
 		out = append(out, stallSpec("direct", 1, 3<<20, 0), stallSpec("direct", 1, 700<<10, 3), stallSpec("queue", 4, 1200<<10, 0))
 	}
 	if waitMs > 0 {
 		// idle longer than every internal wait before traffic (one scenario in the quick tier: it runs
 		// alongside the batch)
-		pre := []scenarioSpec{afterIdle("queue", 4, 6, waitMs, 1, true)}
+		// (two waits: the send lock is process-wide, so under load process() may reach its first
+		// Queue.GetTimeout seconds after the client was started)
+		pre := []scenarioSpec{afterIdle("queue", 4, 6, waitMs, 2, true)}
 		if thorough {
-			pre = append(pre, afterIdle("queue", 1, 12, waitMs, 1, true), afterIdle("queue", 4, 8, waitMs, 2, false),
-				afterIdle("queue", 16, 4, waitMs, 1, true), afterIdle("direct", 4, 8, waitMs, 1, false))
+			pre = append(pre, afterIdle("queue", 1, 12, waitMs, 2, true), afterIdle("queue", 4, 8, waitMs, 3, false),
+				afterIdle("queue", 16, 4, waitMs, 2, true), afterIdle("queue", 4, 8, waitMs, 2, false), afterIdle("direct", 4, 8, waitMs, 2, false))
 		}
 		out = append(pre, out...) // first, so that their idle time overlaps the rest of the batch
 	}
@@ -331,9 +337,9 @@ func afterIdle(mode string, senders, perSender, waitMs, k int, gate bool) scenar
 // stallSpec: the collector stops reading connection 0 after `frames` frames; with a short client Timeout
 // a write deadline expires inside a frame; the collector then reads on, on the same connection.
 func stallSpec(mode string, senders, size, frames int) scenarioSpec {
-	return scenarioSpec{Mode: mode, Senders: senders, BigAll: size, PreMax: 14, Post: 5, TimeoutMs: 600,
+	return scenarioSpec{Mode: mode, Senders: senders, BigAll: size, PreMax: 14, Post: 5, TimeoutMs: 400,
 		Script: []directive{{Stall: true, Frames: frames}},
-		Seed:   uint64(size + frames*19 + senders), Name: fmt.Sprintf("fixed %s/%d senders/%d KiB frames/collector stalls after %d frames, write timeout 600 ms, then reads on", mode, senders, size>>10, frames)}
+		Seed:   uint64(size + frames*19 + senders), Name: fmt.Sprintf("fixed %s/%d senders/%d KiB frames/collector stalls after %d frames, write timeout 400 ms, then reads on", mode, senders, size>>10, frames)}
 }
 
 func canon(o *observation, an *analysis) string {
@@ -349,7 +355,7 @@ func main() {
 		return
 	}
 	rng := vh.NewRng(env.Seed)
-	rep.Rule = "a case is one scenario: mode (direct|queue) x senders (1|4|16) x entry points (Send, SendFlush(false), SendFlush(true), per-send options) x fault script (per accepted connection: close after j whole frames + m bytes, FIN or RST; refuse k connects) x pack sizes (up to > the 2 MiB write buffer) x queue reconfiguration / stalled consumer under a backlog x idle longer than the write timeout, run on the real client (in a child process) against a loopback collector stand-in; non-trivial = at least one frame was received and (a fault was carried out or several senders ran); distinct by (mode, senders, queue capacity, sizes, reconfiguration, script, connections accepted, frames received)"
+	rep.Rule = "a case is one scenario: mode (direct|queue) x senders (1|4|16) x entry points (Send, SendFlush(false), SendFlush(true), per-send options) x fault script (per accepted connection: close after j whole frames + m bytes, FIN or RST; refuse k connects) x pack sizes (up to > the 2 MiB write buffer) x queue reconfiguration / stalled consumer under a backlog x idle longer than the write timeout x idle longer than every internal wait of the client before traffic (then a burst, the consumer busy or not) x a collector that stops reading until a write deadline expires inside a frame and then reads on, on the same connection (frames below and above the write buffer), run on the real client (in a child process) against a loopback collector stand-in; non-trivial = at least one frame was received and (a fault was carried out or several senders ran); distinct by (mode, senders, queue capacity, sizes, reconfiguration, script, connections accepted, frames received)"
 
 	var specs []scenarioSpec
 	replayD42, replayD70, replayD71 := false, false, false
